@@ -114,3 +114,33 @@ int keep_key_lt (int k, int v, int kept) { return k < kept; }
 int ident2 (int k, int v) { return v; }
 int sz_filter_mapping (int n, int kept) { return sizeof (filter_mapping (mk (0, n), "keep_key_lt", this_object (), kept)); }
 int sz_map_mapping (int n) { return sizeof (map_mapping (mk (0, n), "ident2", this_object ())); }
+
+// ---- round 4: the efuns that were on the NOT ANALYSED list, and mapping * mapping
+mapping mkid (int from, int n) { mapping m = ([ ]); int i; for (i = 0; i < n; i++) m[from + i] = from + i; return m; }
+// what sizeof () says against what an iteration finds (a `mismatch` line is a verdict of the oracle)
+int chk (mapping m) {
+  int n = 0; mixed k, v;
+  foreach (k, v in m) n++;
+  if (n != sizeof (m)) VL ("mismatch sizeof=" + sizeof (m) + " nodes=" + n);
+  return sizeof (m);
+}
+// a = ([ 0:0 .. c1-1:c1-1 ]), b has the keys c1-common .. c1-common+c2-1: a * b keeps the nodes of a whose VALUE is a key of b
+int sz_map_compose (int c1, int c2, int common) { mapping a = mkid (0, c1), b = mk (c1 - common, c2); return chk (a * b); }
+int sz_map_compose_eq (int c1, int c2, int common) { mapping a = mkid (0, c1), b = mk (c1 - common, c2); a *= b; return chk (a); }
+// save_variable: the text of ({ 0, ... }) is "({" + "0," * n + "})"; of a string: quotes + one backslash per quote character
+int sz_save_array (int n) { return strlen (save_variable (allocate (n))); }
+int sz_save_string (int n, int esc) { return strlen (save_variable (str (n, esc ? "\"" : "x"))); }
+int sz_save_mapping (int n) { return strlen (save_variable (mk (0, n < 10 ? n : 10))); }
+// d arrays inside each other (svalue_save_size / save_svalue / copy () recurse once per level)
+mixed nest (int d) { mixed a = ({ }); int i; for (i = 1; i < d; i++) a = ({ a }); return a; }
+int sz_save_nested (int d) { return strlen (save_variable (nest (d))); }
+int sz_copy_nested (int d) { mixed a = copy (nest (d)); int n = 1; while (sizeof (a)) { a = a[0]; n++; } return n; }
+int sz_restore_nested (int d) { mixed a = restore_variable (str (d - 1, "({") + "({})" + str (d - 1, ",})")); int n = 1; while (sizeof (a)) { a = a[0]; n++; } return n; }
+int sz_restore_array (int n) { return sizeof (restore_variable ("({" + str (n, "0,") + "})")); }
+int sz_restore_mapping (int n) { string s = "(["; int i; for (i = 0; i < n; i++) s += i + ":1,"; return chk (restore_variable (s + "])")); }
+int sz_regexp (int n, int matched, int flag) {
+  string *a = allocate (n); int i, m = sizeof (a);
+  for (i = 0; i < m; i++) a[i] = i < matched ? "a" : "b";
+  return sizeof (regexp (a, "a", flag));
+}
+int sz_reg_assoc (int m) { mixed *r = reg_assoc (str (m, "a"), ({ "a" }), ({ 1 })); return sizeof (r[0]) == sizeof (r[1]) ? sizeof (r[0]) : -2; }
